@@ -208,4 +208,102 @@ def asyncCtor (stages : Option Int) (wi wo : Nat) (edgeOk : Bool) : Ctor :=
   | .ok => if wi = 1 ∧ wo = 1 ∧ edgeOk then .ok else .valueError
   | r => r
 
+/-! ## Values on wires of different shapes
+
+The delay-line contract speaks of the *value* of the input.  When input and output wires differ in
+width or signedness, "the output shows the input's value" is read as every assignment is read: the
+integer the input pattern stands for, reduced to the output's width. -/
+
+/-- the integer a `w`-bit pattern `p` stands for on an unsigned wire, or (two's complement) on a
+signed one -/
+def valueOf (sg : Bool) (w p : Nat) : Int :=
+  if sg && decide (2 ^ w ≤ 2 * p) then (p : Int) - 2 ^ w else p
+
+/-- the pattern a `wo`-bit wire shows when it is assigned the integer `v` -/
+def patternOf (wo : Nat) (v : Int) : Nat := (v % 2 ^ wo).toNat
+
+/-- what a `wo`-bit output shows when the delay line hands it the `w`-bit input pattern `p` -/
+def delivered (sg : Bool) (w wo p : Nat) : Nat := patternOf wo (valueOf sg w p)
+
+/-! ## Delay line in an output domain whose reset is driven
+
+`reset_less=True` (the default): the line "is unaffected by `o_domain` reset".  `reset_less=False`:
+the line is reset by the `o_domain` reset — it shows the initial value again until `stages` output
+edges have passed with the reset released.  A synchronous reset acts at output edges, an
+asynchronous one (`ClockDomain(async_reset=True)`) also at the moment it rises. -/
+
+/-- an event of a schedule in which the output domain's reset wire is driven as well -/
+inductive REv
+  | ev (e : Ev)
+  /-- drive the reset wire of the output domain to the level of `v` -/
+  | rst (v : Nat)
+deriving Repr, DecidableEq, Inhabited
+
+/-- the schedule as seen by somebody who cannot see the reset wire -/
+def eraseRst : List REv → List Ev
+  | [] => []
+  | .ev e :: es => e :: eraseRst es
+  | .rst _ :: es => eraseRst es
+
+structure FFRObs where
+  /-- current value of the input wire -/
+  inp : Nat
+  /-- current level of the reset wire -/
+  rst : Bool
+  /-- value of the input wire at every output-clock edge since the line was last held in reset,
+  most recent first -/
+  samples : List Nat
+deriving Repr, DecidableEq
+
+/-- `resettable`: the line takes part in the domain's reset; `asyncDom`: that reset acts as soon as
+it rises and not only at output edges -/
+def FFRObs.step (w : Nat) (resettable asyncDom : Bool) (r : FFRObs) : REv → FFRObs
+  | .ev (.set v) => { r with inp := v % 2 ^ w }
+  | .ev .iedge => r
+  | .ev .oedge | .ev .both =>
+    if resettable && r.rst then { r with samples := [] }
+    else { r with samples := r.inp :: r.samples }
+  | .rst v =>
+    if resettable && asyncDom && !r.rst && level v then { r with rst := level v, samples := [] }
+    else { r with rst := level v }
+
+def FFRObs.start (w i0 : Nat) : FFRObs := ⟨i0 % 2 ^ w, false, []⟩
+
+def ffrObserve (w : Nat) (resettable asyncDom : Bool) (i0 : Nat) (evs : List REv) : FFRObs :=
+  evs.foldl (FFRObs.step w resettable asyncDom) (FFRObs.start w i0)
+
+/-- the `w`-bit pattern the line hands to the output: the `stages`-th most recent sample since the
+last reset, or the initial value -/
+def FFRObs.out (stages w : Nat) (init : Int) (r : FFRObs) : Nat :=
+  r.samples.getD (stages - 1) (initValue w init)
+
+/-- **Delay-line contract, any shapes, reset driven.**  The output (width `wo`) shows the value of
+the input (width `w`, signed iff `sg`) sampled `stages` output edges ago, or the value of `init`. -/
+def ffrOut (stages w : Nat) (sg : Bool) (wo : Nat) (init : Int) (resettable asyncDom : Bool)
+    (i0 : Nat) (evs : List REv) : Nat :=
+  delivered sg w wo ((ffrObserve w resettable asyncDom i0 evs).out stages w init)
+
+/-! ## Elaboration: which primitives accept an output domain clocked on the falling edge -/
+
+inductive Prim
+  | ffSync
+  | asyncFFSync
+  | resetSync
+  | pulseSync
+deriving Repr, DecidableEq
+
+inductive Elab
+  | ok
+  | domainRequirementFailed
+deriving Repr, DecidableEq
+
+/-- `AsyncFFSynchronizer` and `ResetSynchronizer` release their output at rising edges of the
+output domain's clock, whatever the asynchronous edge; a domain whose active edge is the falling
+one is refused.  `FFSynchronizer` and `PulseSynchronizer` are ordinary logic of the output domain
+and accept either edge. -/
+def elabContract (p : Prim) (negDomain : Bool) : Elab :=
+  match p with
+  | .asyncFFSync | .resetSync => if negDomain then .domainRequirementFailed else .ok
+  | .ffSync | .pulseSync => .ok
+
 end Amaranth.Cdc
